@@ -291,6 +291,18 @@ func (f *RunningEventFilter) onReorg(writer db.KeyValueWriter) error {
 		if err != nil {
 			return err
 		}
+		// The previous window is open again: its persisted copy must go (in the same
+		// batch as the revert), otherwise it still carries the reverted block's bits
+		// and a restart would take the window for complete and resume after it,
+		// above the chain head.
+		if err := DeleteAggregatedBloomFilter(
+			writer, rangeStartAligned, rangeEndAligned,
+		); err != nil {
+			return fmt.Errorf(
+				"deleting reopened persisted filter for window [%d,%d]: %w",
+				rangeStartAligned, rangeEndAligned, err,
+			)
+		}
 		f.inner = &lastStoredFilter
 	}
 
